@@ -70,30 +70,35 @@ Record ist := {
   commits : list packet;         (* ibc core: packet commitments of packets in flight *)
   sent : list packet;            (* ghost: every packet ever sent *)
   pair_on : Z -> bool;           (* token pair t enabled *)
-  has_acct : Z -> bool;          (* an auth account exists at this address *)
+  has_acct : Z -> bool;          (* an auth account exists at this address (the bank creates one for a first-time recipient) *)
+  chanid : Z -> Z;               (* static: the number N in the id "channel-N" of model channel c *)
   ilog : list event }.           (* ghost *)
 
 Definition with_bal (s : ist) (l : ledger) : ist :=
   {| ibal := l; rel := rel s; nextseq := nextseq s; commits := commits s; sent := sent s;
-     pair_on := pair_on s; has_acct := has_acct s; ilog := ilog s |}.
+     pair_on := pair_on s; has_acct := has_acct s; chanid := chanid s; ilog := ilog s |}.
 Definition with_log (s : ist) (e : event) : ist :=
   {| ibal := ibal s; rel := rel s; nextseq := nextseq s; commits := commits s; sent := sent s;
-     pair_on := pair_on s; has_acct := has_acct s; ilog := ilog s ++ [e] |}.
+     pair_on := pair_on s; has_acct := has_acct s; chanid := chanid s; ilog := ilog s ++ [e] |}.
 Definition with_rel (s : ist) (r : list (Z * Z)) : ist :=
   {| ibal := ibal s; rel := r; nextseq := nextseq s; commits := commits s; sent := sent s;
-     pair_on := pair_on s; has_acct := has_acct s; ilog := ilog s |}.
+     pair_on := pair_on s; has_acct := has_acct s; chanid := chanid s; ilog := ilog s |}.
 Definition with_commits (s : ist) (c : list packet) : ist :=
   {| ibal := ibal s; rel := rel s; nextseq := nextseq s; commits := c; sent := sent s;
-     pair_on := pair_on s; has_acct := has_acct s; ilog := ilog s |}.
+     pair_on := pair_on s; has_acct := has_acct s; chanid := chanid s; ilog := ilog s |}.
 
 Definition cs_eqb (a b : Z * Z) : bool := (fst a =? fst b) && (snd a =? snd b).
 Definition in_rel (r : list (Z * Z)) (c q : Z) : bool := existsb (cs_eqb (c, q)) r.
 Definition del_rel (r : list (Z * Z)) (c q : Z) : list (Z * Z) := filter (fun x => negb (cs_eqb (c, q) x)) r.
 
 (* bank: move / mint / burn with the insufficient-funds check *)
+(* bank SendCoins: a recipient that has no auth account yet gets one (x/bank keeper SendCoins: HasAccount / NewAccountWithAddress) *)
+Definition with_acct (s : ist) (a : Z) : ist :=
+  {| ibal := ibal s; rel := rel s; nextseq := nextseq s; commits := commits s; sent := sent s;
+     pair_on := pair_on s; has_acct := fun x => (x =? a) || has_acct s x; chanid := chanid s; ilog := ilog s |}.
 Definition pay (s : ist) (from to kind t amt : Z) : result ist :=
   if ibal s (from, kind, t) <? amt then Err s
-  else Ok (with_bal s (ladd (ladd (ibal s) (from, kind, t) (- amt)) (to, kind, t) amt)).
+  else Ok (with_acct (with_bal s (ladd (ladd (ibal s) (from, kind, t) (- amt)) (to, kind, t) amt)) to).
 Definition mint (s : ist) (to kind t amt : Z) : ist :=
   with_bal s (ladd (ladd (ibal s) (to, kind, t) amt) (Supply, kind, t) amt).
 Definition burn (s : ist) (from kind t amt : Z) : result ist :=
@@ -113,6 +118,14 @@ Definition VoucherMeta : Z := -2.
 Definition convert_coin (who t amt : Z) (s : ist) : result ist :=
   if negb (pair_on s Erc20Switch && pair_on s t) then Err s else
   bind (pay s who ModErc20 ACoin t amt) (fun s1 => Ok (mint s1 who AErc t amt)).
+
+(* crosschain BaseDenomToBridgeDenom picks the ibc alias of a base token for an IBC target by
+     strings.HasPrefix(denomTrace.GetPath(), "transfer/channel-N")
+   — a PREFIX match on the text: the alias bound to channel-11 is also taken for the target channel-1.  On numbers: the decimal
+   digits of a are a prefix of the decimal digits of b. *)
+Fixpoint dec_prefix_fuel (n : nat) (a b : Z) : bool :=
+  (a =? b) || match n with O => false | S n' => if b <? 10 then false else dec_prefix_fuel n' a (b / 10) end.
+Definition dec_prefix (a b : Z) : bool := dec_prefix_fuel 20 a b.
 
 (* the asset a received / refunded voucher of this denom is held in *)
 Definition voucher_asset (d : denom) : Z * Z :=
@@ -200,13 +213,21 @@ Section Ibc.
 
   (** ** send *)
 
+  (* the voucher alias of token t (trace path transfer/channel-<chanid t>) is taken for the target channel `chan` *)
+  Definition alias_matches (s : ist) (chan t : Z) : bool := dec_prefix (chanid s chan) (chanid s t).
+  (* ibc-go sendTransfer with the voucher of channel t over channel `chan`: over its own channel the voucher goes home and is
+     burnt; over another channel (reached by the prefix rule only) this chain counts as the SOURCE of the coin
+     (the trace path does not start with "transfer/channel-<chan>/") and the voucher is escrowed *)
+  Definition voucher_out (s : ist) (chan sender t amt : Z) : result ist :=
+    if chan =? t then burn s sender AVoucher t amt else pay s sender (Escrow chan) AVoucher t amt.
+
   Definition new_packet (s : ist) (chan sender : Z) (d : denom) (amt : Z) (evm : bool) : ist :=
     let q := nextseq s chan in
     let pk := {| p_chan := chan; p_seq := q; p_sender := sender; p_denom := d; p_amt := amt |} in
     let s1 := {| ibal := ibal s; rel := if evm then (chan, q) :: rel s else rel s;
                  nextseq := fun c => if c =? chan then q + 1 else nextseq s c;
                  commits := pk :: commits s; sent := pk :: sent s;
-                 pair_on := pair_on s; has_acct := has_acct s;
+                 pair_on := pair_on s; has_acct := has_acct s; chanid := chanid s;
                  ilog := if evm then ilog s ++ [EvSendEvm chan q] else ilog s |} in
     s1.
 
@@ -215,15 +236,16 @@ Section Ibc.
     if amt <=? 0 then Err s else
     match d with
     | DAlias t =>
-        if negb (chan =? t) then Err s else       (* convention: Alias token t lists the voucher of channel t only *)
+        (* convention: Alias token t lists the voucher of model channel t only; the alias is found by the prefix rule *)
+        if negb (alias_matches s chan t) then Err s else
         (* handlerERC20Token: transferFrom to the erc20 module, burn, release the escrowed base coin *)
         bind (burn s sender AErc t amt) (fun s1 =>
         bind (pay s1 ModErc20 sender ACoin t amt) (fun s2 =>
         (* BaseCoinToIBCCoin: base coin burnt, voucher out of the transfer module's pool *)
         bind (burn s2 sender ACoin t amt) (fun s3 =>
         bind (pay s3 ModTransfer sender AVoucher t amt) (fun s4 =>
-        (* ibc transfer: not the source => burn the voucher; SendPacket; SetIBCTransferRelation *)
-        bind (burn s4 sender AVoucher t amt) (fun s5 =>
+        (* ibc transfer; SendPacket; SetIBCTransferRelation *)
+        bind (voucher_out s4 chan sender t amt) (fun s5 =>
         Ok (new_packet s5 chan sender d amt true))))))
     | DFx =>
         (* msg.value path (origin token): escrow, no relation *)
@@ -238,16 +260,21 @@ Section Ibc.
     | DFx => bind (pay s sender (Escrow chan) AFx 0 amt) (fun s1 => Ok (new_packet s1 chan sender DFx amt false))
     | DOwn t => bind (burn s sender ACoin t amt) (fun s1 => Ok (new_packet s1 chan sender d amt false))
     | DAlias t =>
-        if negb (chan =? t) then Err s else
+        if negb (alias_matches s chan t) then Err s else
         bind (burn s sender ACoin t amt) (fun s1 =>
         bind (pay s1 ModTransfer sender AVoucher t amt) (fun s2 =>
-        bind (burn s2 sender AVoucher t amt) (fun s3 => Ok (new_packet s3 chan sender d amt false))))
+        bind (voucher_out s2 chan sender t amt) (fun s3 => Ok (new_packet s3 chan sender d amt false))))
     | DUnreg => Err s
     | DBase t =>      (* MsgTransfer of the base coin itself: this chain is the source, the coin is escrowed *)
         bind (pay s sender (Escrow chan) ACoin t amt) (fun s1 => Ok (new_packet s1 chan sender d amt false))
     end.
 
   (** ** acknowledgement / timeout callbacks of the application stack *)
+
+  (* ibc-go refundPacketToken for the voucher of channel t sent over channel c: minted back (own channel) or unescrowed *)
+  Definition voucher_back (s : ist) (c who t amt : Z) : result ist :=
+    if c =? t then pay (mint s ModTransfer AVoucher t amt) ModTransfer who AVoucher t amt
+    else pay s (Escrow c) who AVoucher t amt.
 
   (* transfer refundPacketToken + middleware refundPacketTokenHook -> IBCCoinRefund -> IbcRefund *)
   Definition refund (pk : packet) (s : ist) : result ist :=
@@ -272,12 +299,12 @@ Section Ibc.
         if pair_on s VoucherMeta then
           (* after a genesis import: voucher minted back; IBCCoinToBaseCoin: "base coin" = the voucher itself;
              IbcRefund: a recorded transfer would be re-converted — ConvertCoin finds no pair under the voucher's name *)
-          bind (pay (mint s ModTransfer AVoucher t amt) ModTransfer who AVoucher t amt) (fun s1 =>
+          bind (voucher_back s c who t amt) (fun s1 =>
           bind (voucher_to_self who AVoucher t amt s1) (fun s2 =>
           if in_rel (rel s2) c q then Err (with_rel s2 (del_rel (rel s2) c q)) else Ok s2))
         else
         (* voucher minted back; IBCCoinToBaseCoin: voucher into the pool, base coin minted *)
-        bind (pay (mint s ModTransfer AVoucher t amt) ModTransfer who AVoucher t amt) (fun s1 =>
+        bind (voucher_back s c who t amt) (fun s1 =>
         bind (pay s1 who ModTransfer AVoucher t amt) (fun s2 =>
         bind (pay (mint s2 ModTransfer ACoin t amt) ModTransfer who ACoin t amt) (fun s3 =>
         if in_rel (rel s3) c q
@@ -344,14 +371,14 @@ Section Ibc.
     | TogglePair t =>
         {| ibal := ibal s; rel := rel s; nextseq := nextseq s; commits := commits s; sent := sent s;
            pair_on := fun x => if x =? t then negb (pair_on s t) else pair_on s x;
-           has_acct := has_acct s; ilog := ilog s |}
+           has_acct := has_acct s; chanid := chanid s; ilog := ilog s |}
     | ExportImport =>
         (* as the code is (finding C19-2): the erc20 genesis state carries params and token pairs only — the tracking records
            (store prefix 0x04) are not exported; ibc core exports commitments and sequences, bank / evm / auth everything;
            ibc-go transfer InitGenesis gives every stored denom trace bank metadata (VoucherMeta) *)
         {| ibal := ibal s; rel := []; nextseq := nextseq s; commits := commits s; sent := sent s;
            pair_on := fun x => if x =? VoucherMeta then true else pair_on s x;
-           has_acct := has_acct s; ilog := ilog s |}
+           has_acct := has_acct s; chanid := chanid s; ilog := ilog s |}
     end.
 
   Definition run (ops : list op) (s : ist) : ist := fold_left step ops s.
